@@ -17,7 +17,7 @@ RULE = ("hash clause: EVERY byte length 0..1024 x {zeros, ff, counter, random} (
         "(1, 2, n-1, both parities, x with leading zero bytes from a committed corpus, random) x {mainnet,testnet} x five "
         "kinds + compressed/uncompressed P2PKH, each decoded by the independent Base58Check/Bech32 decoder; distinct = distinct "
         "(monitor, case) digests"
-        " EXTENSIONS: + committed corpus of inputs driving RIPEMD-160 through all-ones / zero internal words, key objects parsed from compressed / uncompressed / hybrid / raw SEC, both forms asked twice in either order, leading-zero Y corpus, every scalar corner enumerated, the address column of wallet listings of K+3 rows per harvested threshold K and purpose")
+        " EXTENSIONS: + committed corpus of inputs driving RIPEMD-160 through all-ones / zero internal words, key objects parsed from compressed / uncompressed / hybrid / raw SEC, both forms asked twice in either order, leading-zero Y corpus, every scalar corner enumerated, the address column of wallet listings of K+3 rows per harvested threshold K and purpose, public keys with a coordinate in [n, p) (committed corpus) in every SEC form, request histories")
 LEVEL_TEXT = ("Each address string produced by the five BaseWallet.*_address methods, PublicKey.address and the h160/h256 "
               "helpers is decoded with an independent decoder and compared with version byte / hrp+witness version and the "
               "HASH160 / SHA-256 of the key or standard script computed by the reference model; script builders are compared "
@@ -157,8 +157,13 @@ def judge_pubkey_address(ctx, case):
     from btc_hd_wallet.keys import PrivateKey
     import btc_hd_wallet.helper as helper
     k, tn = case["k"], case["testnet"]
-    pt = secp.gmul(k)
-    K = PrivateKey(k.to_bytes(32, "big")).K
+    if case.get("point"):
+        # a public key nobody holds the secret of (corpus: a coordinate in [n, p)), handed over in SEC form
+        pt = tuple(case["point"])
+        K = None
+    else:
+        pt = secp.gmul(k)
+        K = PrivateKey(k.to_bytes(32, "big")).K
     src = case.get("key_source", "private")
     if src != "private":
         # the key object comes from one of the SEC serialisations the parser accepts (compressed, uncompressed, and - with the
@@ -321,6 +326,14 @@ def run(ctx):
             judge_pubkey_address(ctx, {"k": k, "testnet": rnd.random() < 0.5, "ktag": tag, "uncompressed_first": rnd.random() < 0.5,
                                        "key_source": rnd.choice(["private", "private", "compressed", "uncompressed", "hybrid", "raw64"]),
                                        "h160": b"\x00" * z + gen.rbytes(rnd, 20 - z), "h256": gen.rbytes(rnd, 32)})
+        hc = gen.high_coordinate_points()
+        ctx.extra["high_coordinate_point_corpus"] = len(hc)
+        for pi, pt in enumerate(hc):
+            n += 1
+            if ctx.mine(n):
+                judge_pubkey_address(ctx, {"k": 0, "point": list(pt), "testnet": bool(pi & 1), "ktag": "K:coordinate>=n", "uncompressed_first": bool(pi & 2),
+                                           "key_source": ("compressed", "uncompressed", "hybrid", "raw64")[pi % 4] if pi % 8 < 6 else "compressed",
+                                           "h160": gen.rbytes(rnd, 20), "h256": gen.rbytes(rnd, 32)})
         for _ in range(ctx.scale(240, 20000)):
             z = rnd.choice([0, 0, 1, 3, 20])
             judge_script_template(ctx, {"h160": b"\x00" * z + gen.rbytes(rnd, 20 - z), "h256": gen.rbytes(rnd, 32)})
